@@ -32,7 +32,9 @@ class Run:
     # ---------------------------------------------------------------- proof side
     def proofs(self):
         P = self.P
+        t0 = time.time()
         ok, failing, text = core.build_coq(self.log)
+        self.log.append("coq make %.1fs" % (time.time() - t0))
         self.coq_ok, self.coq_failing, self.coq_text = ok, failing, text
         self.checker_cmds.append("cd /verif/coq && coq_makefile -f _CoqProject theories/*.v -o Makefile && make -k -j16")
         self.forbidden = core.scan_forbidden()
@@ -69,11 +71,14 @@ class Run:
         gocases = [P.go_case(c) if hasattr(P, "go_case") else c for c in cases]
         env = dict(os.environ)
         env.update(getattr(P, "HARNESS_ENV", {}))
+        t0 = time.time()
         obs = core.run_harness(self.binp, gocases, env=env, chunk=getattr(P, "HARNESS_CHUNK", None),
                                timeout=getattr(P, "HARNESS_TIMEOUT", 1500))
+        t1 = time.time()
         terms = [P.coq_case(c, o) for c, o in zip(cases, obs)]
         rows, cmds, err = core.eval_in_coq(self.pid, P.MODULES, P.EVAL, terms, self.wd,
                                            shard=getattr(P, "COQ_SHARD", 300))
+        self.log.append("executed %d cases: harness %.1fs, coq evaluation %.1fs" % (len(cases), t1 - t0, time.time() - t1))
         for c in cmds[:2]:
             if c not in self.checker_cmds:
                 self.checker_cmds.append(c)
